@@ -269,6 +269,18 @@ class C15(Property):
     mutating = 0
     shadows = []
     twin = []
+    # a decoy instance filled before the run starts and kept alive: state
+    # shared between instances shows up inside this very run (so that the
+    # replay of a single run reproduces it)
+    decoy, decoy_m = self.core.MultiKeyDict(), MultiKeyModel()
+    for k, v in ((KEYS[1], VALS[5]), ((KEYS[6], KEYS[2]), VALS[4])):
+      try:
+        decoy[k] = v
+      except Exception as exc:
+        raise _Mismatch("unexpected-exception", "second-instance",
+                        "filling a second instance raised %r" % (exc,))
+      decoy_m.assign(k, v)
+    shadows.append((decoy, decoy_m))
     self._observe_mkd(d, m, "init")
     for op in ops:
       name = op[0]
@@ -303,7 +315,7 @@ class C15(Property):
         # the source stays alive: it must not change when the copy does
         import copy as _copy
         shadows.append((d, _copy.deepcopy(m)))
-        del shadows[:-2]
+        del shadows[1:-2]           # the decoy (first) always stays
         try:
           d = self.core.MultiKeyDict(d)
         except Exception as exc:
@@ -431,6 +443,15 @@ class C15(Property):
     mutating = 0
     self.dirty = set()     # names whose attribute was overwritten by hand
     twin = []
+    decoy_sd, decoy_m = self.core.StrategyDict("sim_sd_decoy"), StrategyModel()
+    decoy_f = Strat(9, 0)
+    try:
+      decoy_sd[NAMES[0], NAMES[5]] = decoy_f
+    except Exception as exc:
+      raise _Mismatch("unexpected-exception", "second-instance",
+                      "filling a second instance raised %r" % (exc,))
+    decoy_m.s_assign((NAMES[0], NAMES[5]), decoy_f)
+    decoys = [(decoy_sd, decoy_m, set())]
     self._observe_sd(sd, m, "init")
     for op in ops:
       name = op[0]
@@ -521,7 +542,7 @@ class C15(Property):
       events.append("%s %r" % (name, m.canon()))
       res.states.append(stable_hash(m.canon()))
       self._observe_sd(sd, m, name)
-      for osd, om, odirty in twin:
+      for osd, om, odirty in twin + decoys:
         keep = self.dirty
         self.dirty = odirty
         try:
